@@ -102,8 +102,9 @@ theorem compiled_init_eq_bound_defaults (d : PDef V) (args : List V) (kw : KW V)
 
 /-- that hypothesis is needed, and it is what `@dataclass(kw_only=True)` runs into (keyword-only parameters are
     regenerated as positional ones): a required field after a defaulted one does not compile (known finding
-    `convert_to_payload:dataclass-field-options`; a `default_factory` field is the `splice_hypothesis_needed` case:
-    the signature's default is dataclasses' marker object, not `factory()`) -/
+    `convert_to_payload:dataclass-field-options`; a `default_factory` field is refused by `convert_to_payload` with
+    NotImplementedError — binding the signature's default would be the `splice_hypothesis_needed` case: dataclasses'
+    marker object instead of `factory()`) -/
 theorem kw_only_signature_does_not_compile :
     let d : PDef Nat := { fmts := [.str "q", .str "q"], names := ["a", "b"], userInit := some false,
                           defaults := [("a", 1)] }
